@@ -62,6 +62,8 @@ structure Local where
   snapshot : Option Net
   /-- does the handler of the open try-region catch every `BaseException`? -/
   catchAll : Bool
+  /-- does it put back exactly the full copies saved before the region? -/
+  exact : Bool
 deriving Repr
 
 /-- Fault oracle: `raises n` — the `n`-th invocation of a user callable (counted over the whole
@@ -84,7 +86,11 @@ def runOps (faulty : Oracle) : List MicroOp → Local → BState → BState × B
     if faulty.raises b.calls then
       (match l.snapshot with
         | some n0 =>
-          if l.catchAll || !faulty.base b.calls then { b1 with core := { b1.core with net := n0 } }
+          if l.catchAll || !faulty.base b.calls then
+            -- an exact handler is the identity on the saved network; one that rebuilds the
+            -- network from partial information yields SOME network, not known to be the saved one
+            { b1 with core := { b1.core with
+                net := if l.exact then n0 else n0 ++ [.adv (-1) []] } }
           else b1
         | none => b1, false)
     else runOps faulty rest { l with pending := l.pending ++ [(i, arg)] } b1
@@ -95,8 +101,8 @@ def runOps (faulty : Oracle) : List MicroOp → Local → BState → BState × B
       { b with core := { b.core with net := b.core.net ++ [.adv (v.eval l.entry) l.pending] } }
   | .store :: rest, l, b =>
     runOps faulty rest l { b with core := { b.core with stored := (b.core.net, l.pending) } }
-  | .tryBegin ca :: rest, l, b =>
-    runOps faulty rest { l with snapshot := some b.core.net, catchAll := ca } b
+  | .tryBegin ca ex :: rest, l, b =>
+    runOps faulty rest { l with snapshot := some b.core.net, catchAll := ca, exact := ex } b
   | .tryEnd :: rest, l, b => runOps faulty rest { l with snapshot := none } b
   -- not produced for these backends (`faultSafe`/`stepOpsOnly` reject lists containing them)
   | .initStep :: rest, l, b => runOps faulty rest l b
@@ -110,7 +116,7 @@ def runOps (faulty : Oracle) : List MicroOp → Local → BState → BState × B
 
 /-- one `compute_step()` of the backend -/
 def backendStep (faulty : Oracle) (ops : List MicroOp) (b : BState) : BState × Bool :=
-  runOps faulty ops ⟨b.core.step, [], none, false⟩ b
+  runOps faulty ops ⟨b.core.step, [], none, false, false⟩ b
 
 def noFault : Oracle := ⟨fun _ => false, fun _ => false⟩
 
@@ -130,9 +136,10 @@ def scanOps : List MicroOp → Scan → Bool
   | .store :: rest, s => scanOps rest { s with dirty := true }
   | .mutate _ :: rest, s =>
     if s.inTry then scanOps rest { s with prot := true } else scanOps rest { s with dirty := true }
-  -- a handler that does not catch every BaseException protects nothing
-  | .tryBegin ca :: rest, s =>
-    !s.inTry && ca && scanOps rest { s with inTry := true, prot := false }
+  -- a handler that does not catch every BaseException, or does not put back exactly the saved
+  -- copies, protects nothing
+  | .tryBegin ca ex :: rest, s =>
+    !s.inTry && (ca && ex) && scanOps rest { s with inTry := true, prot := false }
   | .tryEnd :: rest, s =>
     s.inTry && scanOps rest { dirty := s.dirty || s.prot, prot := false, inTry := false }
   | _ :: _, _ => false
@@ -140,14 +147,15 @@ def scanOps : List MicroOp → Scan → Bool
 /-- The ordering property: whenever a user callable is invoked, nothing that the step has done
     so far would survive an exception — every `callUser` comes before all `setStep` / `store`
     and before every `mutate` that is not inside a restoring try-region still open at the call
-    whose handler catches EVERY exception class (`tryBegin true`). -/
+    whose handler catches EVERY exception class and restores EXACTLY the saved copies
+    (`tryBegin true true`). -/
 def faultSafe (ops : List MicroOp) : Bool := scanOps ops ⟨false, false, false⟩
 
 /-- only the micro-ops that `runOps` gives a meaning to -/
 def stepOpsOnly : List MicroOp → Bool
   | [] => true
   | .callUser _ _ :: r | .setStep _ :: r | .mutate _ :: r | .store :: r
-  | .tryBegin _ :: r | .tryEnd :: r => stepOpsOnly r
+  | .tryBegin _ _ :: r | .tryEnd :: r => stepOpsOnly r
   | _ :: _ => false
 
 /-- the last assignment of the step counter in the list -/
@@ -383,7 +391,7 @@ def tebdRun (cfg : TebdCfg) (entry : Int) : List MicroOp → Tebd → Tebd
   | .record :: rest, t => tebdRun cfg entry rest (tebdAppend t)
   | .store :: rest, t => tebdRun cfg entry rest t
   | .callUser _ _ :: rest, t => tebdRun cfg entry rest t
-  | .tryBegin _ :: rest, t => tebdRun cfg entry rest t
+  | .tryBegin _ _ :: rest, t => tebdRun cfg entry rest t
   | .tryEnd :: rest, t => tebdRun cfg entry rest t
   | .traceCompute :: rest, t => tebdRun cfg entry rest t
   | .traceRead :: rest, t => tebdRun cfg entry rest t
@@ -391,7 +399,7 @@ def tebdRun (cfg : TebdCfg) (entry : Int) : List MicroOp → Tebd → Tebd
 
 def tebdOpsOnly : List MicroOp → Bool
   | [] => true
-  | .callUser _ _ :: _ | .tryBegin _ :: _ | .tryEnd :: _ => false
+  | .callUser _ _ :: _ | .tryBegin _ _ :: _ | .tryEnd :: _ => false
   | .traceCompute :: _ | .traceRead :: _ | .traceClear :: _ => false
   | _ :: r => tebdOpsOnly r
 
